@@ -36,7 +36,11 @@ def gen_prog(rng: random.Random, nested: bool, pfx: str = "") -> dict:
         ps = [{"name": prev}]
         if rng.random() < 0.5:
             ps.append({"name": "y"})
-        if rng.random() < 0.35:
+        if rng.random() < 0.2:
+            # the default is a tuple that holds a list: "immutable" containers may hold mutable values
+            ps.append({"name": f"acc{i}", "default": "__tuple_of_list__"})
+            nodes.append({"kind": "fn", "name": f"{pfx}a{i}", "params": ps, "outs": [f"s{i}"], "beh": "snapshot_tuple", "beh_param": f"acc{i}"})
+        elif rng.random() < 0.35:
             # the default is a dict that HOLDS a mutable value: a shallow copy per run is not enough
             ps.append({"name": f"acc{i}", "default": {"items": [], "count": 0}})
             nodes.append({"kind": "fn", "name": f"{pfx}a{i}", "params": ps, "outs": [f"s{i}"], "beh": "snapshot_nested", "beh_param": f"acc{i}"})
